@@ -151,7 +151,13 @@ static void build(vf::Plan &plan, const vf::Opts &o)
                         "sequences longer than 3 scalars are covered over the boundary alphabet only (the decoders have a 4-unit window)",
                         "chains of conversions follow from single hops: every hop is checked exact on every reference encoding in the "
                         "enumerated set, and stage 4 additionally feeds library output into the next hop"};
-    unsigned nctx = o.thorough() ? 25 : 4;
+    // the ASan+UBSan build of the thorough tier runs the quick bounds (it is ~8x slower per case); the plain build the large ones
+#ifdef VF_ASAN
+    const bool big = false;
+#else
+    const bool big = o.thorough();
+#endif
+    unsigned nctx = big ? 25 : 4;
     plan.stage(strf("all-scalars x %u contexts (primary routes, 3 source encodings, all modes)", nctx), (uint64_t)NSCALARS * nctx,
                [=](uint64_t i, Ctx &c) {
                    unsigned k = (unsigned)(i / NSCALARS);
@@ -168,7 +174,7 @@ static void build(vf::Plan &plan, const vf::Opts &o)
                    ctx_seq(nctx == 25 ? k : QUICK_CTX[k], nth_scalar((uint32_t)(i % NSCALARS)), cps);
                    return show_cps(cps);
                });
-    unsigned L = o.thorough() ? 5 : 4;
+    unsigned L = big ? 5 : 4;
     plan.stage(strf("B^<=%u (all routes, 3 source encodings, all modes)", L), vf::seq_count(B.size(), L),
                [=](uint64_t i, Ctx &c) {
                    U32V cps;
@@ -181,7 +187,7 @@ static void build(vf::Plan &plan, const vf::Opts &o)
                    seq_from(i, B, L, cps);
                    return show_cps(cps);
                });
-    if (o.thorough()) {
+    if (big) {
         plan.stage("B^6 (primary routes)", vf::ipow(B.size(), 6),
                    [=](uint64_t i, Ctx &c) {
                        U32V cps;
@@ -219,7 +225,7 @@ static void build(vf::Plan &plan, const vf::Opts &o)
                    c.nontrivial();
                },
                [](uint64_t i) { return strf("byte %02X in context %u", (unsigned)(i % 256), (unsigned)(i / 256)); });
-    unsigned LC = o.thorough() ? 4 : 3;
+    unsigned LC = big ? 4 : 3;
     plan.stage(strf("chains through library outputs, B^<=%u", LC), vf::seq_count(B.size(), LC),
                [=](uint64_t i, Ctx &c) {
                    U32V cps;
